@@ -30,6 +30,7 @@ type state struct {
 	havocGhst bool     // all non-local ghost components are weakened/fresh relative to prev
 	havocKeys map[string]bool
 	havocPats []string
+	havocIscopy bool
 	havocLocal bool // thread-local ghost variables too (unknown repository code)
 	guard     string // the havoc happened only if guard (else equal to prev); "" = unconditional
 }
@@ -76,6 +77,9 @@ func (s *state) get(key string) string {
 		}
 	case s.prev != nil:
 		hav := s.havocKeys[key] || (s.havocHeap && isHeapKey(key)) || (s.havocGhst && meta.Ghost && (!meta.Local || s.havocLocal) && key != "G:$alloc")
+		if s.havocIscopy && strings.HasPrefix(key, "G:iscopy$") {
+			hav = true
+		}
 		for _, p := range s.havocPats {
 			if keyMatches(key, p) {
 				hav = true
